@@ -648,6 +648,20 @@ func wrapIndex(i, n int) int {
 	return j
 }
 
+// NTTDOM control (reread): in place, the second test reads the flag the first block has just set
+func (e fixEvaluator) RoundTrip(ctIn, opOut *rlwe.Ciphertext) {
+	opOut.Value[0].CopyLvl(ctIn.Level(), ctIn.Value[0])
+	if !ctIn.IsNTT {
+		e.r.NTT(opOut.Value[0], opOut.Value[0])
+		opOut.IsNTT = true
+	}
+	e.r.MulScalar(opOut.Value[0], 3, opOut.Value[0])
+	if !ctIn.IsNTT {
+		e.r.INTT(opOut.Value[0], opOut.Value[0])
+		opOut.IsNTT = false
+	}
+}
+
 func rnsBad(r *ring.Ring, v uint64) (rns ring.RNSScalar) {
 	rns = make(ring.RNSScalar, r.Level()+1)
 	for i := range rns {
